@@ -36,6 +36,12 @@ func TestDriveC12(t *testing.T) {
 	spec := FanSpec{Kind: "hwmon", HasRpm: false, HasMode: false, N: 10, Alg: AlgSpec{T: "direct"}}
 	c := NewCtl(rec, spec, 0, 1, 0)
 	defer c.Close()
+	// a second fan: never-stop with a configured minimum (the limits live in REQUEST space; what is written is the map's
+	// output for the request - however small that output is)
+	specNS := FanSpec{Kind: "hwmon", HasRpm: false, HasMode: false, N: 10, Alg: AlgSpec{T: "direct"}, NeverStop: true, CfgMin: ip(50), CfgMax: ip(240)}
+	c2 := NewCtl(rec, specNS, 0, 1, 0)
+	defer c2.Close()
+	InstallEnv(c.Env)
 	seqRand := rand.New(rand.NewSource(seed*31 + int64(shard)))
 	emit := func(m map[int]int, label string) {
 		mm := map[int]int{}
@@ -87,6 +93,25 @@ func TestDriveC12(t *testing.T) {
 			reqs, regs, pokes = append(reqs, req), append(regs, w), append(pokes, poke)
 		}
 		rec.Emit(Ev{"ev": "Seq", "label": label, "map": pairs(m), "reqs": reqs, "regs": regs, "pokes": pokes})
+		// the never-stop fan: the requests the controller can issue for it (minimum .. maximum)
+		InstallEnv(c2.Env)
+		mm2 := map[int]int{}
+		for k, v := range m {
+			mm2[k] = v
+		}
+		c2.C.VerifSetPwmMap(mm2)
+		nsReqs, nsRegs := []int{}, []int{}
+		for req := 50; req <= 240; req += 1 + seqRand.Intn(7) {
+			c2.Env.Set("pwm", -7)
+			c2.Env.DrainLog()
+			w := -1000
+			if err := c2.C.VerifSetPwm(req); err == nil {
+				w = c2.Env.Get("pwm")
+			}
+			nsReqs, nsRegs = append(nsReqs, req), append(nsRegs, w)
+		}
+		InstallEnv(c.Env)
+		rec.Emit(Ev{"ev": "Seq", "label": label + "/neverStop", "map": pairs(m), "reqs": nsReqs, "regs": nsRegs, "pokes": []int{}})
 	}
 	// exhaustive: all maps over a key universe (incl. adjacent keys, 0 and 255), outputs from 3 values
 	positions := []int{0, 1, 2, 100, 101, 128, 200, 254, 255, 50, 51, 150}[:universe]
